@@ -3,5 +3,5 @@ CONSTANTS
   MaxKeys = 5
   LevelCounts = {1, 2}
   Vals = {"a", "b", ""}
-INVARIANTS Laws Agree EmitCase
+INVARIANTS EmitCase
 CHECK_DEADLOCK FALSE
